@@ -13,7 +13,7 @@ RULE = ("G1 specs (recursive and not, incl. rules with >=3 edges and edgeless no
         "{float64,float32}, with gradients for Real/Log (float64): every configuration must agree with the independent "
         "reference within the derived bound tol/(1-rho) (values; float32: 1e-3) and 1e-6 (gradients), hence with every other "
         "configuration; Log = log(Real), Bool = (Real>0), Viterbi <= Log; interpreter clause: batches of specs are evaluated by one "
-        "driver under python, python -O and python -OO (and through bin/sum_product.py -OO) and must give identical output; bin/sum_product.py <json> -d -G is run the same three ways and must print the in-process value. "
+        "driver under python, python -O and python -OO (and through bin/sum_product.py -OO) and must give the same output (numbers up to 1e-9 relative); bin/sum_product.py <json> -d -G is run the same three ways and must print the in-process value. "
         "non-trivial = cyclic SCC and a rule with >=3 edges or an edgeless node; distinct by case hash")
 ASSUMPTIONS = ["only specs with finite Z and rho_inf(J(x*)) <= 0.9 are judged", "float64 runs use tol=1e-10, float32 runs tol=1e-5 and are compared at 1e-3",
                "gradient tolerance |g-g_ref| <= 1e-6*|g_ref| + 1e-8*(1+max|g_ref|) + 4*|g(x*)-g(x*-4B)| (float64 only; B = derived fixed-point bound, the last term is the oracle's own first-order sensitivity of the gradient to the fixed point)",
@@ -334,7 +334,7 @@ def check_bin_script(spec, ctx):
     for method in ('fixed-point', 'newton'):
         base = outs[(method, '')]
         for flag in ('-O', '-OO'):
-            ctx.require(outs[(method, flag)] == base, 'assert-dependent-behaviour',
+            ctx.require(script_outputs_agree(outs[(method, flag)], base), 'assert-dependent-behaviour',
                         f'bin/sum_product.py -m {method}: python gives rc={base[0]} {base[1][:300]!r}, python {flag} gives rc={outs[(method, flag)][0]} {outs[(method, flag)][1][:300]!r}', flag=flag)
         if ctx.require(base[0] == 0 and base[1], 'bin-script-failed', f'bin/sum_product.py -m {method}: rc={base[0]} {base[1][:300]}'):
             try:
@@ -370,6 +370,32 @@ def check_bin_script(spec, ctx):
                         continue      # the factor cannot influence Z: the script prints zeros or nothing
                     okg = isinstance(got, list) and len(got) == len(want) and all(b != b or abs(a - b) <= 1e-5 * (1 + abs(b)) for a, b in zip(got, want))   # NaN = element outside a patterned weight's support (no parameter there)
                     ctx.require(okg, 'bin-gradient-differs', f'bin/sum_product.py -m {method}{" -o" if use_o else ""}: grad[{n}] printed {got}, in-process {want}')
+
+
+def script_outputs_agree(a, b):
+    """(rc, stdout) pairs of two runs of the script: same exit status, same lines, numbers equal up to 1e-9 relative
+    (the interpreter mode changes object addresses, hence the iteration order of sets of edges and the order of
+    floating-point summation: last-digit differences are not assertion-dependent behaviour)."""
+    if a[0] != b[0]: return False
+    la, lb = a[1].splitlines(), b[1].splitlines()
+    if len(la) != len(lb): return False
+    def flat(x):
+        if isinstance(x, list):
+            for y in x: yield from flat(y)
+        else: yield x
+    for x, y in zip(la, lb):
+        if x == y: continue
+        px, _, vx = x.rpartition(': '); py, _, vy = y.rpartition(': ')
+        if px != py: return False
+        try: jx, jy = json.loads(vx), json.loads(vy)
+        except Exception: return False
+        fx, fy = list(flat(jx)), list(flat(jy))
+        if len(fx) != len(fy) or np.shape(np.asarray(jx, dtype=object)) != np.shape(np.asarray(jy, dtype=object)): return False
+        for u, v in zip(fx, fy):
+            if u == v or (isinstance(u, float) and isinstance(v, float) and u != u and v != v): continue
+            if not (isinstance(u, (int, float)) and isinstance(v, (int, float))) or not (math.isfinite(u) and math.isfinite(v)): return False
+            if abs(u - v) > 1e-9 * (1 + abs(u)): return False
+    return True
 
 
 def close_lists(a, b):
